@@ -10,8 +10,16 @@ existed). Two kinds of histories:
           schedule at statement granularity is reachable and replayable; for a fixed pair of two-statement objects all 252 (and for a RegexSerDe / TBLPROPERTIES pair all 126)
           interleavings are enumerated in every run.
 Thorough adds free-running threads as a stress supplement.
+  logcfg - objects that differ in their logging arguments (log_level, log_file) in fresh interpreters with an unconfigured root logger;
+          reference = the same object as the only parser of its own fresh interpreter.
 """
 import itertools
+import json
+import os
+import shutil
+import subprocess
+import sys
+import tempfile
 import threading
 
 from hypothesis import strategies as st
@@ -146,7 +154,12 @@ REGEX_ITEMS = [i for i, it in enumerate(universe.corpus()) if "input.regex" in i
 
 @st.composite
 def obj(draw):
-    k = draw(st.integers(0, 11))
+    k = draw(st.integers(0, 12))
+    if k == 12:
+        # a dialect short form, run in its own dialect's mode (the per-dialect output classes and their defaults are shared by all objects)
+        text, mode = draw(st.sampled_from(universe.SHORT_FORMS))
+        run = draw(c14.run_args())
+        return {"src": {"t": "raw", "text": text}, "ctor": {"normalize_names": draw(st.booleans())}, "run": dict(run, output_mode=draw(st.sampled_from([mode, mode, "sql"])))}
     if k == 11:
         src = draw(c14.kw_source())
     elif k == 10:
@@ -294,12 +307,34 @@ class C15(Prop):
                 if m2 == m or (tier == "quick" and (i + n) % 3):
                     continue
                 yield {"kind": "ops", "objs": [as_obj(j), as_obj(i)], "order": [0, 0, 1, 1]}
+        # logging arguments: the first object of a process configures the root logger; no other object's result may depend on that
+        t_ok = "CREATE TABLE la (id int, \"Name\" varchar(10));\nCREATE TRIGGER trg BEFORE INSERT ON la FOR EACH ROW EXECUTE FUNCTION f();\nCREATE TABLE lb (x int);\n"
+        t_plain = "CREATE TABLE lc (\"id\" int PRIMARY KEY);\nCREATE SEQUENCE lseq START 5;\n"
+        log_ctors = [{"log_level": 10}, {"log_level": "DEBUG"}, {"log_level": 40}, {"log_level": 10, "log_file": "parser.log"}, {"log_level": 50, "silent": False}]
+        other_ctors = [{}, {"silent": False}, {"normalize_names": True}]
+        for a_i, ca in enumerate(log_ctors):
+            for b_i, cb in enumerate(other_ctors):
+                if tier == "quick" and (a_i + b_i) % 2:
+                    continue
+                a = {"text": t_ok if a_i % 2 == 0 else t_plain, "ctor": ca, "run": {}}
+                b = {"text": t_ok, "ctor": cb, "run": {"output_mode": "mysql"} if b_i == 2 else {}}
+                yield {"kind": "logcfg", "objs": [a, b], "order": [0, 1, 1, 0] if b_i % 2 == 0 else [1, 0, 0, 1]}
+        # short-form sweep: every dialect short form, then every other text of the same dialect (and a plain table) in that dialect's mode
+        sf = universe.SHORT_FORMS
+        for i, (ta, ma) in enumerate(sf):
+            for j, (tb, mb) in enumerate(sf):
+                if i != j and (mb == ma or mb == "sql"):
+                    a = {"src": {"t": "raw", "text": ta}, "ctor": {}, "run": {"output_mode": ma}}
+                    b = {"src": {"t": "raw", "text": tb}, "ctor": {}, "run": {"output_mode": ma}}
+                    yield {"kind": "ops", "objs": [a, b], "order": [0, 1, 0, 1] if (i + j) % 2 else [0, 0, 1, 1]}
         for a, b, na, nb in pairs:
             for combo in itertools.combinations(range(na + nb), na):  # C(10, 5) = 252 / C(9, 4) = 126 interleavings
                 order = [0 if i in combo else 1 for i in range(na + nb)]
                 yield {"kind": "sched", "objs": [a, b], "schedule": order, "exact": True}
 
     def describe(self, case):
+        if case["kind"] == "logcfg":
+            return {"kind": "logcfg", "texts": [o["text"] for o in case["objs"]], "flags": [o["ctor"] for o in case["objs"]], "history": case["order"]}
         d = {"kind": case["kind"], "texts": [c14.source_text(o["src"]) for o in case["objs"]], "flags": [o["ctor"] for o in case["objs"]],
              "run_args": [o["run"] for o in case["objs"]]}
         d["history"] = case["order"] if case["kind"] == "ops" else case["schedule"]
@@ -315,7 +350,51 @@ class C15(Prop):
         elif got[1] != ref[1]:
             out.fail("result-differs", "%s\n returned %r\n alone    %r\n text=%r" % (tag, got[1], ref[1], text))
 
+    def evaluate_logcfg(self, case):
+        """objects that differ in their logging arguments (log_level, log_file), in fresh interpreters whose root logger is exactly as a user's
+        process has it (unconfigured): each object's run() in the shared process must equal its run() as the only parser of a process"""
+        out = Outcome()
+        objs = case["objs"]
+        out.label("kind:logcfg", "objects=%d" % len(objs))
+        out.nontrivial = len(set(json.dumps(o["ctor"], sort_keys=True) for o in objs)) >= 2
+
+        def child(spec, tag):
+            d = tempfile.mkdtemp(prefix="c15_log_", dir=loader.scratch_dir())
+            try:
+                with open(os.path.join(d, "spec.json"), "w") as f:
+                    json.dump(spec, f)
+                env = dict(os.environ, PYTHONPATH=loader.scratch_dir(), PYTHONHASHSEED="0")
+                p = subprocess.run([sys.executable, "-c", _LOG_CHILD, "spec.json"], cwd=d, env=env, stdout=subprocess.PIPE, stderr=subprocess.DEVNULL, timeout=600)
+                if p.returncode != 0:
+                    return None
+                return json.loads(p.stdout.decode().strip().splitlines()[-1])
+            finally:
+                shutil.rmtree(d, ignore_errors=True)
+
+        alone = []
+        for i, o in enumerate(objs):
+            r = child({"objs": [o], "order": [0, 0]}, "alone%d" % i)
+            out.parses += 1
+            if r is None:
+                out.excluded = "logcfg-child-failed-alone"  # the object cannot even run alone with these arguments: nothing to compare
+                return out
+            alone.append(r[0][1:])
+        got = child({"objs": objs, "order": case["order"]}, "shared")
+        out.parses += len(objs)
+        if got is None:
+            out.fail("logcfg-shared-process-crashed", "objects %r, history %r" % ([o["ctor"] for o in objs], case["order"]))
+            return out
+        for rec in got:
+            i, res = rec[0], rec[1:]
+            if res != alone[i]:
+                out.fail("logcfg-result-differs", "object %d (constructor arguments %r) in history %r with objects %r:\n shared process %r\n alone %r" % (
+                    i, objs[i]["ctor"], case["order"], [o["ctor"] for o in objs], [str(x)[:400] for x in res], [str(x)[:400] for x in alone[i]]))
+                break
+        return out
+
     def evaluate(self, case):
+        if case["kind"] == "logcfg":
+            return self.evaluate_logcfg(case)
         out = Outcome()
         if _S.get("poisoned"):
             # a deadlock was reported in this worker process: whatever is held stays held, every further parse here would block
@@ -401,5 +480,22 @@ class C15(Prop):
     def extra_coverage(self, tier):
         return getattr(self, "_extra", {})
 
+
+_LOG_CHILD = r"""
+import json, sys
+from simple_ddl_parser import DDLParser
+spec = json.load(open(sys.argv[1]))
+parsers, out = {}, []
+for i in spec["order"]:
+    o = spec["objs"][i]
+    if i not in parsers:
+        parsers[i] = DDLParser(o["text"], **o["ctor"])
+        continue
+    try:
+        out.append([i, "ok", parsers[i].run(**o["run"])])
+    except Exception as e:
+        out.append([i, "exc", type(e).__name__ + ": " + str(e)[:300]])
+sys.stdout.write("\n" + json.dumps(out) + "\n")
+"""
 
 PROP = C15()
